@@ -329,8 +329,12 @@ func ParseCurrency(s string) (Currency, error) {
 		return parseHastings(n)
 	}
 	// the numeric part is a plain decimal; in particular big.Rat's exponent
-	// forms ("1e1000000", "1p1000000") would be expanded in full below
-	if strings.ContainsAny(n, "eEpP") {
+	// forms ("1e1000000", "1p1000000") would be expanded in full below, and
+	// its base prefixes, digit separators and quotients ("0x10", "1_0",
+	// "010/1") read as other values than the decimal they resemble
+	if strings.ContainsAny(n, "eEpP") || strings.ContainsFunc(strings.TrimLeft(n, "+-"), func(r rune) bool {
+		return (r < '0' || r > '9') && r != '.'
+	}) {
 		return ZeroCurrency, errors.New("not a number")
 	}
 	// parse numeric part as a big.Rat
